@@ -1244,8 +1244,12 @@ func (st *Runtime) evalPipeCallExpression(baseExpr reflect.Value, args CallArgs,
 	if !baseExpr.IsValid() {
 		return reflect.Value{}, errors.New("base of call expression is invalid value")
 	}
+	if baseExpr.Kind() == reflect.Func && baseExpr.IsNil() {
+		return reflect.Value{}, errors.New("base of call expression is a nil function")
+	}
 	if funcType.AssignableTo(baseExpr.Type()) {
-		return baseExpr.Interface().(Func)(Arguments{runtime: st, args: args, pipedVal: pipedArg}), nil
+		// (also an unnamed func(Arguments) reflect.Value, which is assignable to Func but is not a Func)
+		return baseExpr.Convert(funcType).Interface().(Func)(Arguments{runtime: st, args: args, pipedVal: pipedArg}), nil
 	}
 
 	argValues, err := st.evaluateArgs(baseExpr.Type(), args, pipedArg)
